@@ -292,6 +292,17 @@ pub fn run(ctx: &Ctx) -> Result<Run, String> {
     out.generated += out_m.generated;
     out.stats.merge(out_m.stats);
     {
+        let mut st = Stats::new();
+        for start in [0u32, 1, 7, 0x7FFF_FFFF, 0xFFFF_FFFD, 0xFFFF_FFFE] {
+            for via_registration in [false, true] {
+                st.case(&(start, via_registration), true, "u2f-upgrade");
+                st.findings_from(eval_u2f_upgrade(start, via_registration));
+            }
+        }
+        out.transitions += st.evaluations;
+        out.stats.merge(st);
+    }
+    {
         let cc = client_cases();
         let st = par::sweep_cases(&cc, ctx.threads, |c, st| {
             st.case(c, true, "client-assert");
@@ -443,7 +454,61 @@ pub fn eval_client(c: &ClientCase) -> Vec<Finding> {
     fs
 }
 
+// ------------------------------------------------------------------------------------------
+// credentials that enter the store through the public U2F constructors of `Passkey`
+// (wrap_u2f_registration_request: counter 0; from_u2f_auth_request: the counter the caller supplies)
+// and are then used for CTAP2 assertions: previous + 1, reported = stored
+
+pub fn eval_u2f_upgrade(start: u32, via_registration: bool) -> Vec<Finding> {
+    use passkey_types::u2f::{AuthenticationParameter, AuthenticationRequest, RegisterRequest};
+    let case = json!({"u2f_upgrade": {"start": start, "via_registration": via_registration}});
+    let mut fs = vec![];
+    let mut bad = |kind: &str, d: String| fs.push(Finding::new(format!("op=u2f-upgrade/kind={kind}"), d, case.clone()));
+    let r = par::catch(|| {
+        let app = [0x21u8; 32];
+        let handle = vec![0x44u8; 16];
+        let key = cose_private_from_scalar(&fixed_scalar(5));
+        let pk = if via_registration {
+            let resp = passkey_types::u2f::RegisterResponse { public_key: passkey_types::u2f::PublicKey { x: [1; 32], y: [2; 32] }, key_handle: handle.clone(), attestation_certificate: vec![], signature: vec![] };
+            passkey_types::Passkey::wrap_u2f_registration_request(&RegisterRequest { challenge: [1; 32], application: app }, &resp, &handle, &key).0
+        } else {
+            passkey_types::Passkey::from_u2f_auth_request(&AuthenticationRequest { parameter: AuthenticationParameter::EnforceUserPresence, challenge: [1; 32], application: app, key_handle: handle.clone() }, start, &key)
+        };
+        let want_start = if via_registration { 0 } else { start };
+        let rp = pk.rp_id.clone();
+        let stored0 = pk.counter;
+        let store = Shared::new(RefStore::with(vec![pk]));
+        let mut auth = Authenticator::new(Aaguid::new_empty(), store.clone(), ScriptedUv::consenting(Log::new()));
+        let mut reported = vec![];
+        for _ in 0..2 {
+            let req = ga_request(&rp, Some(vec![handle.clone()]), false, true, true, false, None);
+            reported.push(block_on(auth.get_assertion(req)).map(|r| r.auth_data.counter.unwrap_or(0)).map_err(sc_byte));
+        }
+        (want_start, stored0, reported, store.recs().first().and_then(|r| r.counter))
+    });
+    match r {
+        Err(p) => bad("panic", p),
+        Ok((want_start, stored0, reported, stored)) => {
+            if stored0 != Some(want_start) {
+                bad("constructor-counter", format!("the constructed credential holds counter {stored0:?}, expected {want_start}"));
+            }
+            let n1 = want_start.saturating_add(1);
+            let n2 = want_start.saturating_add(2);
+            if reported != vec![Ok(n1), Ok(n2)] {
+                bad("not-previous-plus-one", format!("two CTAP2 assertions with a credential taken over from U2F at counter {want_start} report {reported:?}, expected {n1} then {n2}"));
+            }
+            if stored != Some(n2) {
+                bad("reported-differs-from-stored", format!("store holds {stored:?} after assertions reporting up to {n2}"));
+            }
+        }
+    }
+    fs
+}
+
 pub fn replay(_ctx: &Ctx, case: &Value) -> Result<Vec<Finding>, String> {
+    if let Some(c) = case.get("u2f_upgrade") {
+        return Ok(eval_u2f_upgrade(c["start"].as_u64().unwrap_or(0) as u32, c["via_registration"].as_bool().unwrap_or(false)));
+    }
     if let Some(c) = case.get("client") {
         let c: ClientCase = serde_json::from_value(c.clone()).map_err(|e| format!("bad C08 client case: {e}"))?;
         return Ok(eval_client(&c));
